@@ -315,7 +315,7 @@ def replay(ctx: Ctx, rep: dict) -> Outcome:
     events, meta = [], []
     observe_case(m["topo"], m["root"], m["variant"], [m["depth"]] if m["depth"] >= 0 else [0], events, meta)
     for e, mm in zip(events, meta):
-        print("  ", mm["what"], mm["depth"], e["out"], e["converted"])
+        print("  ", mm["what"], mm["depth"], e.get("out", e.get("flags")), e.get("converted", e.get("reach")))
     _, rejects = tlc.validate_trace("Member_Trace", "Member_Trace.cfg", events)
     viol = [Violation(clause=r["clause"], case=meta[r["rej"] - 1], fields={}, msg="") for r in rejects]
     return Outcome(level="model_checking", coverage={"evaluations": len(events)}, violations=viol)
